@@ -1,2 +1,54 @@
 import Rscp.Lemmas.Crypt
 import Rscp.Model.Session
+namespace Rscp.Lemmas.Session
+open Rscp Rscp.Model Rscp.Lemmas.Crypt
+
+theorem iv0_eq : iv0 = List.replicate 32 0xFF := rfl
+
+theorem iv0_length : iv0.length = 32 := by rw [iv0_eq, List.length_replicate]
+
+/-- the two ends are in step: each decrypter is in the state of the opposite encrypter -/
+def InStep (cl pe : Chains) : Prop :=
+  cl.enc = pe.dec ∧ cl.dec = pe.enc ∧ cl.enc.length = 32 ∧ cl.dec.length = 32
+
+theorem inStep_init : InStep { enc := iv0, dec := iv0 } { enc := iv0, dec := iv0 } :=
+  ⟨rfl, rfl, iv0_length, iv0_length⟩
+
+/-- from states in step every frame is delivered unchanged -/
+theorem wireRun_inStep (c : BlockCipher) (hc : c.OK) (ops : List WireOp) :
+    ∀ (cl pe : Chains), InStep cl pe →
+    (∀ op ∈ ops, ∀ f, (op = .toPeer f ∨ op = .toClient f) → ∀ b ∈ f, b.length = 32) →
+    ∀ d ∈ wireRun c cl pe ops, d.received = d.sent := by
+  induction ops with
+  | nil => intro cl pe _ _ d hd; simp [wireRun] at hd
+  | cons op ops ih =>
+    intro cl pe hinv hblocks d hd
+    have hrest : ∀ op ∈ ops, ∀ f, (op = .toPeer f ∨ op = .toClient f) → ∀ b ∈ f, b.length = 32 :=
+      fun o ho => hblocks o (List.mem_cons_of_mem _ ho)
+    obtain ⟨h1, h2, h3, h4⟩ := hinv
+    cases op with
+    | connect =>
+      simp only [wireRun, wireStep] at hd
+      exact ih _ _ inStep_init hrest d hd
+    | toPeer plain =>
+      have hb : ∀ b ∈ plain, b.length = 32 := hblocks _ (List.mem_cons_self ..) plain (Or.inl rfl)
+      have hr := cbc_roundtrip c hc cl.enc h3 plain hb
+      simp only [wireRun, wireStep] at hd
+      rw [← h1, hr.1] at hd
+      simp only [List.mem_cons] at hd
+      rcases hd with rfl | hd
+      · rfl
+      · refine ih _ _ ?_ hrest d hd
+        exact ⟨rfl, h2, hr.2, h4⟩
+    | toClient plain =>
+      have hb : ∀ b ∈ plain, b.length = 32 := hblocks _ (List.mem_cons_self ..) plain (Or.inr rfl)
+      have hr := cbc_roundtrip c hc pe.enc (h2 ▸ h4) plain hb
+      simp only [wireRun, wireStep] at hd
+      rw [h2, hr.1] at hd
+      simp only [List.mem_cons] at hd
+      rcases hd with rfl | hd
+      · rfl
+      · refine ih _ _ ?_ hrest d hd
+        exact ⟨h1, rfl, h3, hr.2⟩
+
+end Rscp.Lemmas.Session
